@@ -24,14 +24,14 @@ TECHNIQUE = "TLA+ executable reference + TLC-generated vectors replayed on the i
 DESIGN_REF = "DESIGN.md section 6 C18"
 
 OPS = ["jenkins", "jenkinsLE", "jenkins32", "rotating", "one_at_a_time", "fnv"]
-ACTIONS = ["OpJenkins", "OpJenkinsLE", "OpJenkins32", "OpRotating", "OpRotatingPublished", "OpOneAtATime", "OpFnv"]
+ACTIONS = ["OpJenkins", "OpJenkinsLE", "OpJenkins32", "OpRotating", "OpRotatingPublished", "OpOneAtATime", "OpFnv", "OpSteps"]
 CALLS_PER_VECTOR = 39          # library calls made by harness/hash_replay.c for one vector (it asserts the same number) ...
 CALLS_EXTRA_EMPTY = 2          # ... plus the (NULL, 0, seed) placement of the empty key at run-time debug level 0 and 5
 SWEEP_N = [64, 128, 256, 512, 1024, 2048, 4096, 6144, 8192, 12288]      # size thresholds swept in direction (B)
 
 
 def ncalls(vectors):
-    return sum(CALLS_PER_VECTOR + (CALLS_EXTRA_EMPTY if nunits(e) == 0 else 0) for e in vectors)
+    return sum(CALLS_PER_VECTOR + (CALLS_EXTRA_EMPTY if nunits(e) == 0 else 0) for e in vectors if e["op"] != "steps")
 
 
 def harness(ctx):
@@ -93,7 +93,7 @@ def tlc_vectors(ctx, cfg):
         "module": "MC_Hashes.tla", "cfg": cfg, "distinct_states": res.distinct, "states_generated": res.generated, "depth": res.depth,
         "vectors_emitted": res.edges, "wall_s": round(res.wall, 1),
         "actions_taken_counted_from_emitted_vectors": {k: per_op.get(k, 0) for k in ACTIONS},
-        "laws_checked_on_every_case": ["TypeOK", "JenkinsSame", "Jenkins32Law", "MixReversible", "FnvShiftAdd", "RangeOK"],
+        "laws_checked_on_every_case": ["TypeOK", "JenkinsSame", "Jenkins32Law", "MixReversible", "FnvShiftAdd", "FoldLaw", "RangeOK"],
         "anchors": ["AnchorFnv (6 published FNV-1/FNV-1a values)", "AnchorOneAtATime (2 published values)",
                     "AnchorArith (limb arithmetic vs TLC integers)", "EndianMatters"]})
     if not res.ok:
@@ -137,7 +137,10 @@ def replay_vectors(ctx, exe, vecs):
         if len(ctx.violations) > 60:
             ctx.notes.append("stopped reporting after 60 distinct violation keys")
             break
-    nontriv = sum(1 for e in uniq if nunits(e) > 0)
+    nontriv = sum(1 for e in uniq if nunits(e) > 0 and e["op"] != "steps")
+    nstepvec = sum(1 for e in uniq if e["op"] == "steps")
+    ctx.add("native_step_vectors_bound_to_TLC", nstepvec)      # c18_ref.h operators == Hashes.tla operators (no library call)
+    nt -= nstepvec
     ctx.add("evaluations", nt)
     ctx.add("distinct_nontrivial", nontriv)
     ctx.add("impl_calls", ncalls(uniq))
@@ -215,10 +218,14 @@ def record_and_validate(ctx, exe, corrupt=None):
         ctx.report("long-key " + fail_key(to_harness(c), f), "recording %s on a %d-byte key failed: %r" % (c["op"], len(c["args"]["key"]), f),
                    {"harness_args": [], "script_text": texts[f.sid - 1], "failure": repr(f), "detail": f.detail})
     events, index = [], []
+    nref_diff = {}      # the native fold of c18_ref.h differs from the library's value: right only if TLC rejects that value
     for sid, step, ret, state in sorted(recs):
         if sid in bad:
             continue
         c = cases[sid - 1]
+        if ";nref=" in state:
+            state, nr = state.split(";nref=")
+            nref_diff[sid] = nr
         if state != "same":
             ctx.report("long-key %s [%s] state/%s" % (c["op"], argclass(c["op"], len(to_harness(c)["args"]["key"]), c["args"]["seed"]),
                                                       state.split(",got=")[0]),
@@ -267,6 +274,11 @@ def record_and_validate(ctx, exe, corrupt=None):
                            e["op"], len(e["args"]["key"]), hexv(e["args"]["seed"]), hexv(e["ret"])),
                        {"harness_args": [], "script_text": texts[sid - 1], "event_index": bad_i,
                         "event": {"op": e["op"], "seed": e["args"]["seed"], "ret": e["ret"], "key_len": len(e["args"]["key"])}})
+    rejected_sids = {index[bad_i] for out in results for _, bad_i in out if bad_i is not None}
+    for sid in nref_diff:
+        if sid in index and sid not in rejected_sids:
+            raise Broken("native fold of c18_ref.h (%s) disagrees with a value TLC accepted (%s, %d-byte key)" % (
+                nref_diff[sid], cases[sid - 1]["op"], len(cases[sid - 1]["args"]["key"])))
     ctx.add("trace_events_validated", accepted)
     ctx.add("traces_validated_against_impl", nchunks)
     ctx.add("evaluations", accepted)
@@ -276,6 +288,69 @@ def record_and_validate(ctx, exe, corrupt=None):
                 "first": [{"op": e["op"], "key_len": len(e["args"]["key"]), "seed": hexv(e["args"]["seed"]), "recorded": hexv(e["ret"])}
                           for e in events[:3]]})
     return ok
+
+
+def limbs(n):
+    return [n >> 16, n & 0xFFFF]
+
+
+HUGE_BYTES = [("2^31-1", 2 ** 31 - 1), ("2^31", 2 ** 31), ("2^31+3", 2 ** 31 + 3), ("2^32-1", 2 ** 32 - 1)]
+HUGE_WORDS = [("2^30-1", 2 ** 30 - 1), ("2^30", 2 ** 30), ("2^30+5", 2 ** 30 + 5)]
+
+
+def huge_family(ctx, exe):
+    """Extreme lengths that need real memory (direction B with the TLC-bound native folds as the reference): every function on a
+    lazily zeroed MAP_NORESERVE key with non-zero islands.  thorough: every length of HUGE_* x alignments 0..3; quick: each
+    function just above 2^31 bytes (2^30 words) at one misaligned address (+ alignment 0 for jenkinsLE / jenkins32)."""
+    rnd = random.Random(ctx.seed + 18)
+    cases = []
+    for i, op in enumerate(OPS):
+        table = HUGE_WORDS if op == "jenkins32" else HUGE_BYTES
+        if ctx.tier == "quick":
+            # one misaligned address each; alignment 0 too where the published definition itself distinguishes aligned keys
+            # (hash3's aligned path, hash2's ub4 array)
+            sel = [(table[-1] if op == "jenkins32" else table[2], a) for a in ((0, 1 + i % 3) if op in ("jenkinsLE", "jenkins32") else (1 + i % 3,))]
+        else:
+            sel = [(t, a) for t in table for a in range(4)]
+        for (label, n), a in sel:
+            seed = [0, 0] if (a + i) % 4 == 0 else [rnd.randrange(65536), rnd.randrange(65536)]
+            cases.append({"op": op, "label": label, "len": n, "align": a, "seed": seed})
+    texts = ["S %d\nhuge %s %s %d %s = * ok\nE\n" % (k + 1, c["op"], tok(limbs(c["len"])), c["align"], tok(c["seed"]))
+             for k, c in enumerate(cases)]
+    from concurrent.futures import ThreadPoolExecutor
+
+    def one(k):
+        return run_scripts(exe, [], [texts[k]], ctx.rundir, jobs=1, env={"VH_WATCHDOG": "1500"}, timeout=1800, tag="huge%d" % k)
+    import time
+    t0 = time.time()
+    with ThreadPoolExecutor(4) as ex:
+        res = list(ex.map(one, range(len(cases))))
+    done = 0
+    gib = 0.0
+    for k, (fails, _, ns, nt) in enumerate(res):
+        c = cases[k]
+        if ns != 1:
+            raise Broken("huge case %r was not run" % (c,))
+        for f in fails:
+            d = f.got.split("=")[0] if f.kind == "state" else (f.sig if f.kind in ("crash", "hang", "exit") else f.got)
+            ctx.report("huge %s [len=%s,align=%s,%s] %s/%s" % (c["op"], c["label"], "0" if c["align"] == 0 else "1-3",
+                                                              "seed=0" if c["seed"] == [0, 0] else "seed!=0", f.kind, d),
+                       "%s on a %s-%s key at alignment %d, seed %s: library value %s, fold of the reference step operators %s %s" % (
+                           c["op"], c["label"], "word" if c["op"] == "jenkins32" else "byte", c["align"], hexv(c["seed"]), f.detail or "?",
+                           f.got, f.sig),
+                       {"harness_args": [], "script_text": texts[k], "case": c, "failure": repr(f), "detail": f.detail})
+        if not fails:
+            done += 1
+        gib += c["len"] * (4 if c["op"] == "jenkins32" else 1) / 2.0 ** 30
+    ctx.add("evaluations", len(cases))
+    ctx.add("distinct_nontrivial", len({(c["op"], c["len"], c["align"], tok(c["seed"])) for c in cases}))
+    ctx.add("impl_calls", len(cases))
+    ctx.cov["extreme_lengths"] = {"cases": len(cases), "agree_with_reference_fold": done, "GiB_hashed_by_the_library": round(gib, 1),
+                                  "lengths": sorted({c["label"] for c in cases}), "alignments": sorted({c["align"] for c in cases}),
+                                  "wall_s": round(time.time() - t0, 1),
+                                  "reference": "fold of c18_ref.h step operators, bound to Hashes.tla by OpSteps vectors + FoldLaw + comparison "
+                                               "with TLC on every ordinary vector"}
+    ctx.sample({"extreme_length_case": {k: cases[0][k] for k in ("op", "label", "len", "align")}, "seed": hexv(cases[0]["seed"])})
 
 
 def run(ctx):
@@ -288,6 +363,7 @@ def run(ctx):
     vecs = tlc_vectors(ctx, cfg)
     replay_vectors(ctx, exe, vecs)
     record_and_validate(ctx, exe)
+    huge_family(ctx, exe)
     ctx.cov["exhaustive"] = False
     ctx.cov["rule"] = ("cases = TLC's states of MC_Hashes: every key length 0..40 x {all-zero, all-0xFF, counting up, counting down, "
                        "single-bit keys (first, last and every BitStep-th bit), NRand pseudo-random keys generated in TLA+ from the run "
@@ -311,4 +387,4 @@ def replay(ctx, path):
         res = run_tlc("MC_Hashes.tla", rp["tlc_cfg"], ctx.rundir, workers=4, timeout=1500, env=tlc_env(ctx), coverage=False)
         print("TLC:", "no error" if res.ok else res.violation)
         return 0 if res.ok else 1
-    return objcheck.replay_file(harness(ctx), [], path, ctx.rundir)
+    return objcheck.replay_file(harness(ctx), [], path, ctx.rundir, env={"VH_WATCHDOG": "1500"})
